@@ -29,6 +29,11 @@ use topo::World;
 
 pub const T0: u32 = 1_700_000_000;
 
+thread_local! {
+    /// C11 only: the "real" walk uses the library-level router (sciparse advance + HopMacValidator) instead of pocketscion's.
+    static USE_LIB_ROUTER: std::cell::Cell<bool> = const { std::cell::Cell::new(false) };
+}
+
 /// Final verdict of a walk, in the coarse classes the property names.
 #[derive(Clone, Debug, PartialEq, Eq)]
 pub enum Final {
@@ -124,6 +129,29 @@ fn real_step(w: &mut World, at: usize, ing: u16, now: u32, b: &mut [u8]) -> Resu
     })
 }
 
+/// A minimal router assembled from sciparse's public pieces only: `advance_ingress_with_validator` /
+/// `advance_egress_with_validator` with the library's own `HopMacValidator` (no interface or expiry checks).
+fn lib_step(w: &World, at: usize, ing: u16, b: &mut [u8]) -> Verdict {
+    use sciparse::dataplane_path::standard::routing::{EgressValidateResult, HopMacValidator, IngressAdvanceAction, IngressValidateResult};
+    use sciparse::dataplane_path::view::ScionDpPathViewRefMut;
+    let key = w.m.ases[at].key;
+    let Ok((view, _)) = ScionRawPacketView::try_from_mut_slice(b) else { return Verdict::Drop };
+    let ScionDpPathViewRefMut::Standard(path) = view.header_mut().path_mut() else { return Verdict::Unspecified("not a standard path") };
+    let adv = match path.advance_ingress_with_validator(HopMacValidator { key }, ing == 0) {
+        Err(_) => return Verdict::Drop,
+        Ok(IngressValidateResult::ValidationFailed(..)) => return Verdict::Reject("invalid-mac"),
+        Ok(IngressValidateResult::Ok(o)) => o,
+    };
+    match adv.action {
+        IngressAdvanceAction::ForwardLocal => Verdict::Deliver,
+        IngressAdvanceAction::ContinueEgress { .. } => match path.advance_egress_with_validator(HopMacValidator { key }) {
+            Err(_) => Verdict::Drop,
+            Ok(EgressValidateResult::ValidationFailed(..)) => Verdict::Reject("invalid-mac"),
+            Ok(EgressValidateResult::Ok(o)) => Verdict::Forward(o.egress_interface),
+        },
+    }
+}
+
 /// Walk a packet AS by AS.  `which` = true: the real routers; false: the reference routers.  Both walks apply the
 /// same fault plan at the same step indices.
 pub fn walk(w: &mut World, which_real: bool, pkt: &[u8], start: usize, start_ing: u16, now0: u32, plan: &[Fault], max_steps: usize) -> WalkOut {
@@ -181,7 +209,9 @@ pub fn walk(w: &mut World, which_real: bool, pkt: &[u8], start: usize, start_ing
             }
         }
         let bytes_before = b.clone();
-        let (v, note) = if which_real {
+        let (v, note) = if USE_LIB_ROUTER.with(|c| c.get()) && which_real {
+            (lib_step(w, at, ing, &mut b), None)
+        } else if which_real {
             match real_step(w, at, ing, now, &mut b) {
                 Ok(x) => x,
                 Err(e) => {
@@ -397,6 +427,10 @@ fn check_steps(ctx: &mut RunCtx, w: &World, what: &str, o: &WalkOut) -> RunResul
                 }
             }
         }
+        if st.out.starts_with("Unspecified") {
+            // handed to the router-alert machinery (or outside the library router's scope): neither refused nor forwarded
+            continue;
+        }
         if !st.ok {
             if let Some(hb) = &hb {
                 let (pb, pa) = (&st.bytes_before[hb.path_off..hb.hdr_len], st.bytes_after.get(hb.path_off..hb.hdr_len));
@@ -459,6 +493,15 @@ fn run_c11(ctx: &mut RunCtx) -> RunResult {
                 return ctx.violate("C11/authentic-path-does-not-verify", format!("path {sh} {}->{}: {:?}; steps: {}", w.m.name(src), w.m.name(dst), fwd.fin, describe_steps(&w, &fwd)));
             }
             ctx.probe("authentic-path-verified");
+            {
+                USE_LIB_ROUTER.with(|c| c.set(true));
+                let lf = walk(&mut w, true, &pkt, src, 0, now, &[], 200);
+                USE_LIB_ROUTER.with(|c| c.set(false));
+                check_steps(ctx, &w, "authentic path (library router)", &lf)?;
+                if lf.fin != Final::Delivered(dst) {
+                    return ctx.violate("C11/authentic-path-does-not-verify", format!("path {sh} {}->{} under sciparse's HopMacValidator: {:?}; steps: {}", w.m.name(src), w.m.name(dst), lf.fin, describe_steps(&w, &lf)));
+                }
+            }
             let delivered = fwd.steps.last().map(|s| s.bytes_after.clone()).unwrap_or_default();
             if let Ok(rpkt) = reply_packet(&delivered) {
                 let back = walk(&mut w, true, &rpkt, dst, 0, now, &[], 200);
@@ -530,6 +573,17 @@ fn run_c11(ctx: &mut RunCtx) -> RunResult {
                 // detected no later than at the AS that owns the tampered hop field: that AS is the one the honest
                 // walk was at when the pointer reached the hop field
                 let owner_step = fwd.steps.iter().position(|s| pointers(&s.bytes_before).map(|p| p.1 <= owner_hop).unwrap_or(false) && pointers(&s.bytes_after).map(|p| p.1 > owner_hop || s.out.starts_with("Deliver")).unwrap_or(false));
+                // the same tampering against the library-level router (sciparse's own HopMacValidator)
+                {
+                    USE_LIB_ROUTER.with(|c| c.set(true));
+                    let tl = walk(&mut w, true, &pkt, src, 0, now, &plan, 200);
+                    USE_LIB_ROUTER.with(|c| c.set(false));
+                    check_steps(ctx, &w, "tampered path (library router)", &tl)?;
+                    ctx.probe("library-router-tamper-checked");
+                    if matches!(tl.fin, Final::Delivered(_)) {
+                        return ctx.violate("C11/tampering-not-detected", format!("path {sh}: flipping {what} (bit {bit}) before step {k} went unnoticed by sciparse's HopMacValidator: {:?}; plan {plan:?}; steps: {}", tl.fin, describe_steps(&w, &tl)));
+                    }
+                }
                 if let Some(os) = owner_step {
                     if t.steps.len() > os + 1 && !matches!(t.fin, Final::Alert(_)) {
                         return ctx.violate(
@@ -1129,7 +1183,7 @@ impl Engine for NetEngine {
     fn required_reach(&self, prop: &str) -> Vec<&'static str> {
         match prop {
             "C14" => vec!["scmp-error-observed", "quote-checked", "quote-truncated", "echo-round-trip", "echo-reply-checked", "error-for-refused-packet", "link-down", "path-expired", "host-replied"],
-            "C11" => vec!["authentic-path-verified", "reverse-path-verified", "tamper-authenticated-field", "tamper-detected-in-time", "refusal-checked-for-atomicity", "replayed-at-earlier-as"],
+            "C11" => vec!["authentic-path-verified", "reverse-path-verified", "tamper-authenticated-field", "tamper-detected-in-time", "refusal-checked-for-atomicity", "replayed-at-earlier-as", "library-router-tamper-checked"],
             "C13" => vec!["shortcut-path", "peering-path", "three-segment-path", "attacker-recombination", "attack-accepted-by-reference", "attack-refused-by-reference", "bit-flip", "delay-across-expiry", "link-down-in-flight", "misdelivery", "one-hop-packet", "one-hop-delivered"],
             _ => vec!["pair-with-paths", "shortcut-path", "peering-path", "three-segment-path", "reverse-walked"],
         }
